@@ -431,6 +431,84 @@ Definition holder_select (v : variant) (p : defn) (creds : list cred) : hres :=
       apply_loop (S (S (Nat.pow 2 (length (it_descs it)))) + length (it_descs it)) v p (index_creds 0 creds) r it [] [] []
   end.
 
+(* ---- the code as found before fix d2cbd9f: limit disclosure of an SD-JWT credential REPLACED the disclosures of
+   the credential object itself, which every input descriptor (and the caller) shares: the holder's credential
+   list is state of the selection loop, and a wrapped SD-JWT credential is a reference into it (it shows whatever
+   the object holds when the presentation is assembled).  Kept as a separate copy of the loop so that the
+   repaired functions above stay pure. ---- *)
+Fixpoint set_nth (i : nat) (c : cred) (l : list icred) : list icred :=
+  match l with
+  | [] => []
+  | (j, x) :: t => if Nat.eqb i j then (j, c) :: t else (j, x) :: set_nth i c t
+  end.
+
+Definition limit_shared (d : desc) (cs : list icred) (l : list icred) : list wcred * list icred :=
+  fold_left (fun (acc : list wcred * list icred) (ic : icred) =>
+               let '(ws, st) := acc in
+               let '(i, c0) := ic in
+               (* the object as it is now *)
+               let c := match find (fun jc => Nat.eqb (fst jc) i) st with Some jc => snd jc | None => c0 end in
+               match d_constraints d with
+               | Some k =>
+                   if c_sd c && k_limit k
+                   then (ws ++ [{| w_key := KId (c_id c); w_src := i; w_cred := sd_limited k c |}], set_nth i (sd_limited k c) st)
+                   else (ws ++ limit_one AsIs d (i, c), st)
+               | None => (ws ++ limit_one AsIs d (i, c), st)
+               end) l ([], cs).
+
+Fixpoint eval_sol_shared (p : defn) (cs : list icred) (sol : list N) (evaluated : list N) (ms : list dmatch)
+  : bool * list N * list dmatch * list N * list icred :=
+  match sol with
+  | [] => (true, evaluated, ms, [], cs)
+  | id :: rest =>
+      if memN id evaluated then
+        match find_match ms id with
+        | None => (false, evaluated, ms, [], cs)
+        | Some _ => eval_sol_shared p cs rest evaluated ms
+        end
+      else
+        match find_desc p id with
+        | None => (false, id :: evaluated, ms, [id], cs)
+        | Some d =>
+            let '(code, l) := match_descriptor p d cs in
+            let '(ws, cs') := limit_shared d cs l in
+            match ws with
+            | [] => (false, id :: evaluated, ms, [id], cs')
+            | _ => eval_sol_shared p cs' rest (id :: evaluated) ({| m_desc := id; m_fmt := code; m_creds := ws |} :: ms)
+            end
+        end
+  end.
+
+Fixpoint apply_loop_shared (fuel : nat) (p : defn) (cs : list icred) (r : req) (it : iter)
+         (evaluated : list N) (ms : list dmatch) (ex : list N) : hres * list icred :=
+  match fuel with
+  | O => (HFuel, cs)
+  | S f =>
+      match next r it ex with
+      | None => (HFuel, cs)
+      | Some (it', sol) =>
+          match sol with
+          | [] => (HNoCreds, cs)
+          | _ =>
+              let '(solved, ev', ms', ex', cs') := eval_sol_shared p cs sol evaluated ms in
+              if solved then
+                let sel := flat_map (fun id => match find_match ms' id with Some m => [m] | None => [] end) sol in
+                let fmt := fold_left (fun acc m => if N.eqb (m_fmt m) 0 then acc else m_fmt m) sel 3%N in
+                (HOk fmt sel, cs')
+              else apply_loop_shared f p cs' r it' ev' ms' ex'
+          end
+      end
+  end.
+
+(* a wrapped SD-JWT credential shows what the shared object holds at the end *)
+Definition resolve_shared (cs : list icred) (w : wcred) : wcred :=
+  if c_sd (w_cred w)
+  then match find (fun jc => Nat.eqb (fst jc) (w_src w)) cs with
+       | Some jc => {| w_key := w_key w; w_src := w_src w; w_cred := snd jc |}
+       | None => w
+       end
+  else w.
+
 (* ================= merge ================= *)
 Fixpoint insert_dm (m : dmatch) (l : list dmatch) : list dmatch :=
   match l with
@@ -478,6 +556,23 @@ Definition create_vp (v : variant) (p : defn) (creds : list cred) : cres :=
   | HNoFrom => CNoFrom
   | HNoCreds => CNoCreds
   | HFuel => CFuel
+  end.
+
+(* CreateVP as found before fix d2cbd9f (shared SD-JWT credential objects) *)
+Definition create_vp_shared (p : defn) (creds : list cred) : cres :=
+  match make_req p with
+  | None => CNoFrom
+  | Some r =>
+      let it := new_iter r (map d_id (p_descs p)) in
+      match apply_loop_shared (S (S (Nat.pow 2 (length (it_descs it)))) + length (it_descs it)) p (index_creds 0 creds) r it [] [] [] with
+      | (HOk fmt sel, cs') =>
+          let sel' := map (fun m => {| m_desc := m_desc m; m_fmt := m_fmt m; m_creds := map (resolve_shared cs') (m_creds m) |}) sel in
+          let '(out, maps) := merge_all (sort_dm sel') [] [] [] in
+          COk {| vp_fmt := fmt; vp_creds := out; vp_map := maps |}
+      | (HNoFrom, _) => CNoFrom
+      | (HNoCreds, _) => CNoCreds
+      | (HFuel, _) => CFuel
+      end
   end.
 
 (* ================= Match ================= *)
